@@ -312,8 +312,14 @@ pub fn compare_tree_lines(a: &str, b: &str) -> BTreeSet<&'static str> {
     let ao: Vec<&str> = a_ops.split(';').collect();
     let bo: Vec<&str> = b_ops.split(';').collect();
     if ao.len() != bo.len() {
-        all(&mut out);
-        return out;
+        // one side stopped at a panic: blame the panic, and compare the common prefix as usual
+        let (short, _long) = if ao.len() < bo.len() { (&ao, &bo) } else { (&bo, &ao) };
+        if short.last() == Some(&"PANIC") {
+            out.insert("panic");
+        } else {
+            all(&mut out);
+            return out;
+        }
     }
     for (x, y) in ao.iter().zip(bo.iter()) {
         if x == y {
